@@ -829,7 +829,14 @@ func (s *Stream) handleData(off int64, b []byte, fin bool) error {
 		}
 	}
 	if s.inclosed.isSet() {
-		// The user read-closed the stream. We can discard this frame.
+		// The user read-closed the stream. We can discard this frame,
+		// but not the final size it may carry: a peer that finishes the
+		// stream with FIN (instead of answering our STOP_SENDING with
+		// RESET_STREAM) never repeats it, and the receive side of the
+		// stream is complete only once the final size is known.
+		if fin && s.insize == -1 {
+			s.insize = end
+		}
 		return nil
 	}
 	if len(s.inset) > 0 && s.inset[0].contains(off) {
